@@ -263,6 +263,8 @@ func lspTextPool(t *rapid.T, tier string) []string {
 	text, toks := baseText(t, tier)
 	broken, _ := mutateText(t, text, toks)
 	pool = append(pool, broken, "", "send [USD 1] (source = $nosuch destination = @b)")
+	// texts that differ only in trailing white space, and whose diagnostics depend on it
+	pool = append(pool, "send [COIN 10] (", "send [COIN 10] (\n", "send [COIN 10] (\n\n  ", "send [USD 1] (source = @a destination = @b) // c", "send [USD 1] (source = @a destination = @b) // c\n")
 	// two texts whose diagnostics differ only in where a range ends
 	pool = append(pool, "set_tx_meta(12, \"x\")\n", "set_tx_meta(123456, \"x\")\n")
 	return pool
@@ -336,6 +338,10 @@ func init() {
 			k.MaxDepth = 4
 		}
 		ec := gen.NewTG(t, k).Case()
+		// a declaration with a type name that does not exist is still a declaration
+		if len(ec.Script.Vars) > 0 && gen.Chance(t, "nav.badtype", 12) {
+			ec.Script.Vars[gen.Uniform(t, "nav.badtype.i", len(ec.Script.Vars))].Type = gen.Pick(t, "nav.badtype.t", []string{"acount", "int", "monetaryy"})
+		}
 		var seps []string
 		for i, n := 0, 4+gen.Uniform(t, "nseps", 8); i < n; i++ {
 			seps = append(seps, gen.Pick(t, "sep", []string{" ", " ", " ", "", "", "\n", "\n  ", "  ", "\t", " /* é */ ", "/**/", "// c\n"}))
